@@ -53,7 +53,12 @@ RULE = (
     "constructor plus an offset model, or its generic inverse; EVERY answer of a session is compared with the model "
     "and judged by the oracle at the content the buffer had for that query; (a) calc_cubic_root on coefficient triples built from "
     "prescribed roots (three real roots, one real root, double roots perturbed to both sides of det = 0, over 12 "
-    "decades of scale) and on the coefficient triples of the four cubic-based models, all three selected roots; "
+    "decades of scale) and on the coefficient triples of the four cubic-based models, all three selected roots; the "
+    "triples of the models are ALSO put to the public constructor that has to solve them (same parameters, same point "
+    "of the published curve), so that this stream keeps observing the cubic when the private function cannot be reached "
+    "(it is looked for by its path, then by its name in any lumicks.pylake module, then as the one function all four "
+    "public closed-form inverses call with (a, b, c, root); if none of these finds it the direct observations are "
+    "recorded as unreachable - see private_calc_cubic_root in the coverage - and only the public ones are compared); "
     "(b) 'chain' cases: a random model expression (depth <= 3: base constructors, +, offset, invert with and "
     "without interpolation) with parameters from the property's box (Lp, St, kT +-50% of the dsDNA/ssDNA "
     "defaults, twist parameters +-10%, Lc log-uniform in 0.3..30 um, offset models in +-0.1, offsets of "
@@ -495,6 +500,117 @@ def run_session(case):
     return ans, ops
 
 
+# ------------------------------------------------------------------ the anchored PRIVATE mechanism: calc_cubic_root
+#
+# Robustness against harmless refactorings (DESIGN.md, C12): everything else in this harness goes through the public API
+# (`lk.<constructor>`, `Model.__call__`, `+`, `invert`, `subtract_independent_offset`, `independent`, `dependent`,
+# `parameter_names`, `defaults`).  The closed-form cubic solver is an anchored mechanism of the property and has no
+# public name, so it is observed DIRECTLY only while it can be reached (an unreachable observation is "?", which
+# agree(), the oracle and nontrivial() skip; it never surfaces as an implementation answer), and the same behaviour is
+# ALSO tied through the public constructors that are built on it (`via` of a cubic case).
+
+CUBIC_PATH = ("lumicks.pylake.fitting.detail.model_implementation", "calc_cubic_root")
+_SOLVER = {}
+
+
+def _is_function(f):
+    return callable(f) and hasattr(f, "__code__")
+
+
+def _probe_points():
+    """one valid (constructor, parameters, input) per closed-form inverse, at the default parameters"""
+    for kind in sorted(CUBIC_KINDS):
+        e = ["b", kind, "m"]
+        params = {n: DEFAULTS[n.split("/")[-1]] for n in p_names(e)}
+        yield e, params, (5.0 if KINDS[kind][2] == "f" else 0.9 * DEFAULTS["Lc"])
+
+
+def _answers_like_cubic_solver(fn):
+    """does fn(a, b, c, k) answer with root k of y^3 + a y^2 + b y + c for arrays of coefficients, in the anchor's
+    convention (three real roots: k = 0 middle, 1 smallest, 2 largest; otherwise the real root)?"""
+    one = lambda v: np.array([float(v)])  # noqa: E731
+    try:
+        with np.errstate(all="ignore"):
+            r3 = [float(np.atleast_1d(fn(one(-6), one(11), one(-6), k))[0]) for k in (0, 1, 2)]  # (y-1)(y-2)(y-3)
+            r1 = [float(np.atleast_1d(fn(one(0), one(1), one(-2), k))[0]) for k in (0, 1, 2)]  # (y-1)(y^2+y+2)
+    except Exception:  # noqa: BLE001
+        return False
+    return all(abs(u - v) < 1e-9 for u, v in zip(r3, (2.0, 1.0, 3.0))) and all(abs(u - 1.0) < 1e-9 for u in r1)
+
+
+def _watch_public_calls():
+    """the module-level functions that EVERY public closed-form inverse hands three coefficient arrays (or floats) and
+    a root index 0..2 to while it answers a query; nothing but public names is used to get there"""
+    common_fns = None
+    for e, params, x in _probe_points():
+        seen = []
+
+        def prof(frame, event, arg, seen=seen):
+            if event != "call":
+                return
+            co = frame.f_code
+            if co.co_argcount != 4 or co.co_kwonlyargcount or (co.co_flags & 0x0C):
+                return
+            vals = [frame.f_locals.get(n) for n in co.co_varnames[:4]]
+            k = vals[3]
+            if isinstance(k, (int, np.integer)) and not isinstance(k, bool) and 0 <= k <= 2 and all(
+                    isinstance(v, (np.ndarray, float, np.floating)) for v in vals[:3]):
+                fn = frame.f_globals.get(co.co_name)
+                if getattr(fn, "__code__", None) is co and fn not in seen:
+                    seen.append(fn)
+
+        m = build(e)
+        old = sys.getprofile()
+        sys.setprofile(prof)
+        try:
+            call(m, np.array([x]), params)
+        finally:
+            sys.setprofile(old)
+        common_fns = seen if common_fns is None else [f for f in common_fns if f in seen]
+    return common_fns or []
+
+
+def cubic_solver():
+    """(function, how it was reached) for the anchored closed-form cubic solver, or (None, "unreachable").
+    1. "path": its known private module and name;
+    2. "name": the same name in whatever lumicks.pylake module holds it once the public closed-form constructors have
+       been used (the private module was moved / renamed / split);
+    3. "watched": the one function all four public closed-form inverses call with (a, b, c, root index) and that
+       answers two reference cubics in the anchor's convention (the function was renamed)."""
+    if "fn" in _SOLVER:
+        return _SOLVER["fn"], _SOLVER["how"]
+    fn, how = None, "unreachable"
+    try:
+        import importlib
+
+        fn = getattr(importlib.import_module(CUBIC_PATH[0]), CUBIC_PATH[1])
+        how = "path"
+    except (ImportError, AttributeError):
+        fn = None
+    if fn is None:
+        try:
+            with warnings.catch_warnings():
+                warnings.simplefilter("ignore")
+                for e, _, _ in _probe_points():
+                    build(e)  # the constructors import their implementation lazily
+                cands = []
+                for name, mod in sorted(sys.modules.items()):
+                    if name.startswith("lumicks.pylake") and mod is not None:
+                        f = mod.__dict__.get(CUBIC_PATH[1])
+                        if _is_function(f) and f not in cands:
+                            cands.append(f)
+                if len(cands) == 1:
+                    fn, how = cands[0], "name"
+                else:
+                    cands = [f for f in _watch_public_calls() if _answers_like_cubic_solver(f)]
+                    if len(cands) == 1:
+                        fn, how = cands[0], "watched"
+        except Exception:  # noqa: BLE001 - not reachable: the direct observations are "?"
+            fn, how = None, "unreachable"
+    _SOLVER.update(fn=fn, how=how)
+    return fn, how
+
+
 def run_case(case):
     """returns (answers, ops): the implementation's observables and the protocol lines asking the model the
     same questions (ops may quote earlier answers of the implementation: round trips run on ITS values)"""
@@ -502,18 +618,33 @@ def run_case(case):
     with warnings.catch_warnings():
         warnings.simplefilter("ignore")
         if op == "cubic":
-            from lumicks.pylake.fitting.detail.model_implementation import calc_cubic_root
-
+            solve, how = cubic_solver()
             a, b, c = case["abc"]
             ans, ops = [], []
             for k in case["ks"]:
-                with np.errstate(all="ignore"):
-                    try:
-                        y = calc_cubic_root(np.array([a]), np.array([b]), np.array([c]), k)
-                        ans.append(enc_float(y[0]))
-                    except Exception as ex:  # noqa: BLE001
-                        ans.append(errname(ex))
+                if solve is None or (k > 2 and how == "watched"):
+                    # not reachable (or: the error contract of a private function that is only known by what it is
+                    # used for): no observation
+                    ans.append("?")
+                else:
+                    with np.errstate(all="ignore"):
+                        try:
+                            y = solve(np.array([a]), np.array([b]), np.array([c]), k)
+                            ans.append(enc_float(np.atleast_1d(y)[0]))
+                        except Exception as ex:  # noqa: BLE001
+                            ans.append(errname(ex))
                 ops.append(f"c12.cubic {enc_float(a)} {enc_float(b)} {enc_float(c)} {k}")
+            via = case.get("via")
+            if via:
+                # the same cubic through the PUBLIC constructor whose closed form has to solve it
+                e = ["b", via["kind"], "m"]
+                params = dict(zip(p_names(e), via["args"]))
+                try:
+                    r = show(call(build(e), np.array([via["x"]], dtype=float), params))
+                except Exception as ex:  # noqa: BLE001
+                    r = errname(ex)
+                ans.append(r)
+                ops.append(eval_op(e, params, [via["x"]]))
             return ans, ops
         if op == "names":
             e = case["expr"]
@@ -655,6 +786,8 @@ def close_bound(iv, v, bound):
 
 
 def agree(case, i, ia, ma):
+    if ia == "?":
+        return True  # an observation of private code that could not be made (see cubic_solver): nothing to compare
     if ma == "bad-op" and ia == "skipped-nonfinite":
         return True
     if case["op"] == "names":
@@ -663,14 +796,16 @@ def agree(case, i, ia, ma):
         return ia == ma  # error names
     if not (ia.startswith("[") or ia.startswith("b") or ia == "nan"):
         return False
-    if case["op"] == "cubic":
+    if case["op"] == "cubic" and i < len(case["ks"]):
         parts = ma.split(":")
         r = close_bound(dec_float(ia), dec_float(parts[0]), dec_float(parts[1]))
         return r is not False
     if case["op"] in ("dna", "dnaseq") and i % 2 == 0:
+        # Lc = kbp * um/kbp is one product; kT = 1e21 k_B T is a product of three factors whose order the property
+        # does not fix (any association is within 2 ulp): the tolerances are those of the oracle, not bit equality
         iv = [dec_float(t) for t in ia[1:-1].split(",")]
         mv = [dec_float(t) for t in ma[1:-1].split(",")]
-        return all(abs(a - b) <= 4e-16 * abs(b) for a, b in zip(iv[:2], mv))
+        return all(abs(a - b) <= tol * abs(b) for a, b, tol in zip(iv[:2], mv, (1e-14, 1e-13)))
     iv = [dec_float(t) for t in ia[1:-1].split(",")] if ia != "[]" else []
     mv = parse_model_list(ma)
     if len(iv) != len(mv):
@@ -717,6 +852,8 @@ def oracle(case, ia):
         a, b, c = case["abc"]
         vals = []
         for k, s in zip(case["ks"], ia):
+            if s == "?":
+                continue  # the private solver was not reachable: no direct observation (the public one follows)
             if k > 2:
                 if s != "RuntimeError":
                     return f"selected_root={k}: expected RuntimeError, got {s}"
@@ -745,6 +882,13 @@ def oracle(case, ia):
                 return f"cubic-vieta: three real roots {y0},{y1},{y2} do not sum to -a={-a}"
             if not (y1 <= y0 + 1e-9 * sc and y0 <= y2 + 1e-9 * sc):
                 return f"cubic-order: roots not ordered root1 <= root0 <= root2: {y1},{y0},{y2}"
+        via = case.get("via")
+        if via and len(ia) > len(case["ks"]):
+            # the public constructor that has to solve this cubic, judged by its published equation
+            got = dec_vals(ia[len(case["ks"])])
+            if got is None or len(got) != 1:
+                return f"evaluation: {via['kind']}({via['x']}) on valid input gave {ia[len(case['ks'])][:60]}"
+            return published_clause(via["kind"], via["args"], [via["x"]], got)
         return None
     if op == "names":
         e = case["expr"]
@@ -1064,7 +1208,10 @@ def oracle_chain(case, ia):
 def nontrivial(case, ia):
     if case.get("stream") == "malformed":
         return True
-    a0 = ia[0]
+    seen = [a for a in ia if a != "?"]
+    if not seen:
+        return False  # nothing could be observed
+    a0 = seen[0]
     if a0.startswith("b"):
         return math.isfinite(dec_float(a0))
     v = dec_vals(a0)
@@ -1308,6 +1455,7 @@ def cubic_one_real(r, re, im):
 def gen_cubic(rng, i):
     s = 10.0 ** rng.uniform(-4, 8)
     r = rng.random()
+    via = None
     sign = lambda: -1.0 if rng.chance(0.5) else 1.0  # noqa: E731
     if r < 0.3:
         roots = [s * rng.uniform(-1, 1) for _ in range(3)]
@@ -1323,15 +1471,17 @@ def gen_cubic(rng, i):
         abc = [sign() * 10.0 ** rng.uniform(-3, 3) for _ in range(3)]
     else:
         # coefficient triples of the four analytically inverted models
-        import numpy as _np
-
         kind = rng.choice(sorted(CUBIC_KINDS))
         a = [draw_param(rng, kind, x) for x in KINDS[kind][1]]
         F = forces_for(rng, kind, a, 1)[0]
         Fc, d = curve_point(kind, F, a) if kind != "ewlc_odijk_force" else (F, P_odijk_d(F, *a))
         abc = model_coeffs(kind, Fc, d, a)
+        via = {"kind": kind, "args": [float(t) for t in a], "x": float(d if KINDS[kind][2] == "d" else Fc)}
     ks = [0, 1, 2] if not rng.chance(0.03) else [0, 1, 2, 3]
-    return {"stream": "random", "op": "cubic", "abc": [float(t) for t in abc], "ks": ks, "subseed": i}
+    c = {"stream": "random", "op": "cubic", "abc": [float(t) for t in abc], "ks": ks, "subseed": i}
+    if via is not None:
+        c["via"] = via
+    return c
 
 
 def model_coeffs(kind, F, d, a):
@@ -1886,6 +2036,8 @@ def extra_coverage(results):
     dropped = compared = 0
     solver_cases = 0
     inv_shapes, sessions = {}, {"sessions": 0, "with_two_different_temperatures": 0, "dna_models_observed": 0}
+    direct = {"reached_by": _SOLVER.get("how", "not asked for"), "direct_observations": 0, "unreachable_observations": 0,
+              "cases_also_through_the_public_constructor": 0}
     msess = {"sessions": 0, "queries": 0, "with_two_parameter_sets": 0, "by_query_kind": {}, "by_expression": {},
              "through_scipy_solver": 0, "queries_after_in_place_overwrite_of_the_same_buffer": 0}
     for r in results:
@@ -1924,8 +2076,14 @@ def extra_coverage(results):
         for a in r["impl"]:
             if a.endswith("Error"):
                 errs[a] = errs.get(a, 0) + 1
+        if c["op"] == "cubic":
+            direct["direct_observations"] += sum(1 for a in r["impl"][:len(c["ks"])] if a != "?")
+            direct["unreachable_observations"] += sum(1 for a in r["impl"][:len(c["ks"])] if a == "?")
+            direct["cases_also_through_the_public_constructor"] += "via" in c
         for ia, ma in zip(r["impl"], r["model"]):
-            if c["op"] == "cubic" and ma.count(":") == 2:
+            if ia == "?":
+                continue
+            if c["op"] == "cubic" and not ma.startswith("[") and ma.count(":") == 2:
                 v, b, br = ma.split(":")
                 cubic_br[br] = cubic_br.get(br, 0) + 1
                 items = [(dec_float(v), dec_float(b), "")]
@@ -1942,12 +2100,23 @@ def extra_coverage(results):
                     else:
                         compared += 1
                         rel.append(b / abs(v))
+    if direct["unreachable_observations"] and not direct["direct_observations"]:
+        print(f"NOTE property={PROP}: the private cubic solver (anchor calc_cubic_root) could not be reached in this tree; "
+              f"{direct['unreachable_observations']} direct observations were skipped, the cubic is tied through the public "
+              f"closed-form constructors only")
     rel.sort()
     q = lambda f: (rel[min(len(rel) - 1, int(f * len(rel)))] if rel else None)  # noqa: E731
     return {
         "case_kinds": kinds,
         "chain_roots": roots,
         "error_kinds": errs,
+        "private_calc_cubic_root": direct,
+        "private_calc_cubic_root_note": (
+            "reached_by: path = known private module and name; name = same name in another lumicks.pylake module; watched = "
+            "the function all four public closed-form inverses call with (a, b, c, root index), whatever its name (its "
+            "reaction to a root index > 2 is then not observed); unreachable = no direct observation was possible, the "
+            "cubic is tied only through the public constructors (cases_also_through_the_public_constructor and every "
+            "chain / session case of the four closed-form inverses)"),
         "cubic_branch_split_calc_cubic_root": {"det>=0 (Cardano)": cubic_br.get("C", 0), "det<0 (trigonometric)": cubic_br.get("T", 0)},
         "cubic_branch_split_inside_models": {"det>=0 (Cardano)": branches.get("C", 0), "det<0 (trigonometric)": branches.get("T", 0)},
         "values_compared_within_model_error_bound": compared,
